@@ -21,7 +21,9 @@ def units(tier):
     for kind in A.KINDS:
         n = len(recur.anchors(kind, tier))
         for i in range(n):
-            us.append(("shift", kind, i))
+            # quick: shifts from every second anchor (each anchor day still occurs in some representation)
+            if tier != "quick" or i % 2 == 0 or recur.anchors(kind, tier)[i]["t"][0] != "hms":
+                us.append(("shift", kind, i))
             us.append(("eq", kind, i))
     return us
 
@@ -296,7 +298,8 @@ def run_unit(unit, ctx):
                     desc = {"fmt": fmt, "n": n, "anchor": anchor, "dur": d, "via": "ctor"}
                     ctx.state_count += 1
                     ctx.sample(lambda: {"r": desc, "shift": SHIFTS[0]})
-                    for sd in SHIFTS if (n in (None, 1, 3)) else SHIFTS[:2]:
+                    main = SHIFTS if ctx.tier != "quick" else SHIFTS[:3] + SHIFTS[5:6]
+                    for sd in main if (n in (None, 1, 3)) else SHIFTS[:1]:
                         check_shift(ctx, kind, c, desc, sd)
                     check_text(ctx, kind, c, desc)
     else:
